@@ -607,6 +607,10 @@ pub fn median(values: &[Value]) -> Value {
   let mut list = vec![];
   for value in values {
     if let Value::Number(n) = value {
+      if !is_finite(n) {
+        // infinities and NaNs have no place in the order of numbers
+        return value_null!("[core::median] not a finite number: {}", n);
+      }
       list.push(*n);
     } else {
       return value_null!("median");
@@ -666,6 +670,10 @@ pub fn mode(values: &[Value]) -> Value {
   let mut list = vec![];
   for value in values {
     if let Value::Number(n) = value {
+      if !is_finite(n) {
+        // infinities and NaNs have no place in the order of numbers
+        return value_null!("[core::mode] not a finite number: {}", n);
+      }
       list.push(*n);
     } else {
       return invalid_argument_type!("mode", "number", value.type_of());
